@@ -52,6 +52,35 @@ func init() {
 		}
 		return setOrErr(transform.ConvertQuadkeysAndVerticalIDsToSpatialIDs(l, atoi(a[1])))
 	})
+	// index form with equal NON-ZERO heights (max == min selects the index form whatever the common value is)
+	op("qv2exte", func(a []string) string {
+		var l []*object.QuadkeyAndVerticalID
+		hgt := atof(a[3])
+		for _, it := range split(a[0]) {
+			f := strings.Split(it, ":")
+			l = append(l, object.NewQuadkeyAndVerticalID(atoi(f[0]), atoi(f[1]), atoi(f[2]), atoi(f[3]), hgt, hgt))
+		}
+		return setOrErr(transform.ConvertQuadkeysAndVerticalIDsToExtendedSpatialIDs(l, atoi(a[1]), atoi(a[2])))
+	})
+	op("e2qve", func(a []string) string {
+		hgt := atof(a[3])
+		r, err := transform.ConvertExtendedSpatialIDsToQuadkeysAndVerticalIDs(split(a[0]), atoi(a[1]), atoi(a[2]), hgt, hgt)
+		if err != nil {
+			return "ERR"
+		}
+		if len(r) == 0 {
+			return "[]"
+		}
+		gs := make([]string, len(r))
+		for i, g := range r {
+			ok := "H"
+			if g.MaxHeight() != hgt || g.MinHeight() != hgt {
+				ok = "HEIGHTS-NOT-ECHOED"
+			}
+			gs[i] = fmt.Sprintf("%d/%d/%s|%s", g.QuadkeyZoom(), g.VerticalZoom(), ok, pairsStr(g.InnerIDList()))
+		}
+		return strings.Join(gs, ";")
+	})
 	op("e2qv", func(a []string) string {
 		r, err := transform.ConvertExtendedSpatialIDsToQuadkeysAndVerticalIDs(split(a[0]), atoi(a[1]), atoi(a[2]), 0, 0)
 		if err != nil {
@@ -232,6 +261,9 @@ func init() {
 						do("qv2sp", join(l), s(z))
 					}
 				}
+				if rng.Intn(5) == 0 {
+					do("qv2exte", join(l), s(outH), s(outV), fbits([]float64{100, -3.5, 1e-9, 500}[rng.Intn(4)]))
+				}
 				do("qv2ext", join(l), s(outH), s(outV))
 			case 1: // extended IDs -> quadkey/vertical groups
 				l := randExtList(3)
@@ -262,6 +294,9 @@ func init() {
 					outV = 36
 				}
 				idl = zoomFieldOut(maybeCorrupt(ids(l), 0.05))
+				if rng.Intn(5) == 0 {
+					do("e2qve", join(idl), s(outH), s(outV), fbits([]float64{100, -3.5, 1e-9, 500}[rng.Intn(4)]))
+				}
 				do("e2qv", join(idl), s(outH), s(outV))
 			default: // extended IDs -> quadkey/altitudekey groups
 				l := randExtList(3)
